@@ -41,7 +41,7 @@ def run(prop, tier, rep):
         bounded = o.get("bounded")
         for h in o.get("known_hits", []) or []:
             present.setdefault(h, []).append(o["id"])
-        rec = cf.get(o["id"])
+        rec = cf.get(o.get("finding_key") or o["id"])
         known = (not o["ok"]) and rec is not None and rec["recorded_actual"] == o["actual"]
         if known:
             present.setdefault(rec["finding"], []).append(o["id"])
